@@ -394,7 +394,6 @@ func runBatch(work, bin string, part fw.Part, cfg fw.Config) batchOutcome {
 	return o
 }
 
-var frameRe = regexp.MustCompile(`^(github\.com/Comcast/sheens/[^\s(]+|main\.[^\s(]+)\(`)
 
 // crashInfo extracts the fatal message, the first sheens frame after it, and
 // the last CASE line per worker from a child's log.
@@ -426,10 +425,11 @@ func crashInfo(path string) (site, msg string, cases []string) {
 			found = true
 			continue
 		}
-		if found && site == "unknown" {
-			if m := frameRe.FindStringSubmatch(l); m != nil {
-				s := strings.TrimPrefix(m[1], "github.com/Comcast/sheens/")
-				if !strings.HasPrefix(s, "main.TestVerif") {
+		if found && site == "unknown" && (strings.HasPrefix(l, "github.com/Comcast/sheens/") || strings.HasPrefix(l, "main.")) {
+			// "pkg.(*T).Method(0x...)": the function name is everything before the argument list
+			if i := strings.LastIndex(l, "("); i > 0 {
+				s := strings.TrimPrefix(l[:i], "github.com/Comcast/sheens/")
+				if !strings.HasPrefix(s, "main.TestVerif") && !strings.HasPrefix(s, "main.main") {
 					site = s
 				}
 			}
